@@ -14,7 +14,7 @@ RULE = {
     "non-trivial = formatter inputs outside [0, 2^n) or with the sign bit set; table checks with >=2 rows and >=1 unaligned or sub-word write; distinct by (value, width) / case hash."
 }
 ASSUMPTIONS = {"C17": ["R8 parses the strings back (no formatting code shared)", "the shadow of written addresses is maintained from the backing Memory's public write_*/reset calls; bytes of a faulting straddling write are treated as 'either'"]}
-REQUIRED = {"C17": ["formatter_exhaustive_12", "formatter_exhaustive_16", "formatter_32", "wrapped_formatter_calls", "register_tables_checked", "memory_tables_checked", "memory_rows_checked", "toy_tables_checked", "toy_register_reprs_checked", "subword_rows", "cached_table_checks"]}
+REQUIRED = {"C17": ["formatter_exhaustive_12", "formatter_exhaustive_16", "formatter_32", "wrapped_formatter_calls", "register_tables_checked", "memory_tables_checked", "memory_rows_checked", "toy_tables_checked", "toy_register_reprs_checked", "subword_rows", "cached_table_checks", "tables_after_reload_checked", "custom_register_file_cases"]}
 
 
 def plan(prop, tier, seed):
@@ -126,8 +126,26 @@ def check_memory_table(sim, shadow, res, case):
     return True
 
 
+def custom_regfile_sim(case):
+    """RegisterFile documents a 'test mode': a plain list makes x0 an ordinary register.  The register table must
+    show what the register file holds - also then."""
+    import fixedint
+    from architecture_simulator.simulation.riscv_simulation import RiscvSimulation
+    from architecture_simulator.uarch.riscv.riscv_architectural_state import RiscvArchitecturalState
+    from architecture_simulator.uarch.riscv.register_file import RegisterFile
+
+    mode = "five_stage_pipeline" if case["mode"] == "five" else "single_stage_pipeline"
+    regs = [fixedint.UInt32(v) for v in case["plain_regs"]]
+    st = RiscvArchitecturalState(pipeline_mode=mode, register_file=RegisterFile(registers=regs))
+    return RiscvSimulation(state=st, mode=mode)
+
+
 def run_rv_case(case, res):
-    sim = make_riscv(case["mode"], hz=True, dcache=case.get("dcache"))
+    if case.get("plain_regs"):
+        sim = custom_regfile_sim(case)
+        res.count("custom_register_file_cases")
+    else:
+        sim = make_riscv(case["mode"], hz=True, dcache=case.get("dcache"))
     install_program(sim, case["prog"])
     set_regs(sim, case["regs"])
     back = getattr(sim.state.memory, "memory", sim.state.memory)
@@ -146,6 +164,23 @@ def run_rv_case(case, res):
         ok = check_register_table(sim, res, case) and check_memory_table(sim, shadow, res, case)
     if case.get("dcache"):
         res.count("cached_table_checks")
+    if ok and case.get("reload_text") is not None:
+        # the same simulation object is loaded again (as the web UI does on every edit): the tables must show
+        # the new memory contents only
+        try:
+            sim.load_program(case["reload_text"])
+        except Exception:
+            pass
+        res.count("tables_after_reload_checked")
+        ok = check_register_table(sim, res, case) and check_memory_table(sim, shadow, res, case)
+        k2 = 0
+        while ok and not sim.is_done() and k2 < 12:
+            try:
+                sim.step()
+            except Exception:
+                break
+            k2 += 1
+            ok = check_register_table(sim, res, case) and check_memory_table(sim, shadow, res, case)
     sub = any(d["m"] in ("sb", "sh") for d in case["prog"])
     if sub:
         res.count("subword_rows")
@@ -256,7 +291,13 @@ def run_shard(spec, res):
                 prog, regs = G.structured_program(rng, size=rng.randint(4, 25), aligned=rng.random() < 0.5, faults=rng.random() < 0.2)
             mode = rng.choice(["single", "five"])
             case = {"kind": "rv", "prog": prog, "regs": regs, "mem": G.init_mem(rng, n=24), "mode": mode, "max_steps": 150}
-            if rng.random() < 0.4:
+            k2 = rng.random()
+            if k2 < 0.35:
+                case["reload_text"] = rng.choice(["", "addi x1, x0, 1\nsw x1, 0(x31)", ".data\nq: .word 5, 6\n.text\nla x2, q\nsb x2, 1(x2)", "nop"])
+            elif k2 < 0.45:
+                case["plain_regs"] = [rng.choice([0, 7, 0xFFFFFFFF, rng.getrandbits(32)])] + [rng.getrandbits(32) for _ in range(31)]
+                case["prog"] = [{"m": "addi", "rd": 0, "rs1": 0, "imm": rng.randint(-9, 9)}] + case["prog"][:6]
+            if rng.random() < 0.4 and "plain_regs" not in case:
                 from .cache import rand_cfg
 
                 case["dcache"] = rand_cfg(rng, small=True)
